@@ -76,6 +76,9 @@ def run_harness(args, timeout=900):
         p = subprocess.run([exe] + args, stdout=subprocess.PIPE, stderr=subprocess.PIPE, text=True, timeout=timeout)
     except subprocess.TimeoutExpired:
         raise ToolError("harness process did not finish within %d s: %s" % (timeout, " ".join(args[:8])))
+    if p.returncode == -9:
+        # SIGKILL comes from outside the process (out-of-memory killer): nothing the code under test did
+        raise ToolError("harness process was killed (SIGKILL, probably out of memory): %s" % " ".join(args[:8]))
     if p.returncode != 0:
         return {"crash": "exit %d" % p.returncode, "stderr": p.stderr[-2000:], "args": args}
     try:
@@ -276,6 +279,8 @@ MAX_REJECT_PER_FILE = 4
 MAX_EVENTS_PER_TLC = 250000
 
 
+# per trace file (one per exploration shard) at most this many memory-manager events are validated (whole runs)
+MM_MAX_EVENTS_PER_FILE = 600000
 MM_KEEP = ('"e":"reset"', '"e":"mminit"', '"e":"mm"', '"e":"ret"', '"e":"stuck"')
 
 
@@ -309,6 +314,8 @@ def validate_file(trace_file, wd, mm=False):
         for (s0, e0) in split_runs(lines):
             if any('"e":"mminit"' in l for l in lines[s0:min(e0, s0 + 3)]):
                 keep += lines[s0:e0]
+            if len(keep) > MM_MAX_EVENTS_PER_FILE:
+                break
         lines = keep
     res = {"accepted": 0, "rejected": [], "states": 0, "generated": 0, "events": len(lines)}
     base = os.path.basename(trace_file) + sfx
